@@ -218,33 +218,39 @@ func checkC20(r *core.Run) {
 			r.Undecide("G-demote", core.Key("G-demote", rv, "success-returns"), r.P.FuncPos(fn), "no success return found")
 		}
 		// the test reads the decremented value: the store TotalStorage -= size precedes the test on every path
-		decB := map[*ssa.BasicBlock]bool{}
-		for _, b := range fn.Blocks {
-			for _, ins := range b.Instrs {
+		// (typestate walk through helpers outside the vocabulary: the decrement is often a helper on the pledge)
+		key := core.Key("G-demote", rv, "re-test follows the decrement")
+		t := &tsRule{r: r,
+			events: func(f *ssa.Function, ins ssa.Instruction, T func(ssa.Value) string) []string {
 				if st, ok := ins.(*ssa.Store); ok {
 					if fa, ok := st.Addr.(*ssa.FieldAddr); ok && shortTypeName(fa.X.Type())+"."+fieldNameT(fa.X.Type(), fa.Field) == "node/types.Pledge.TotalStorage" {
-						if strings.Contains(r.Resolver(fn).Of(st.Val).String(), " - ") {
-							decB[b] = true
+						if strings.Contains(T(st.Val), " - ") {
+							return []string{"dec"}
 						}
 					}
 				}
-			}
-		}
-		key := core.Key("G-demote", rv, "re-test follows the decrement")
-		testB := map[*ssa.BasicBlock]bool{}
-		for e := range ck.PassEdges(thr) {
-			testB[e.From] = true
-		}
-		bad := false
-		for tb := range testB {
-			if decB[tb] {
-				continue
-			}
-			if p := forwardAvoid(fn.Blocks[0], decB, nil, func(b *ssa.BasicBlock) bool { return b == tb }); p != nil {
-				bad = true
-			}
-		}
-		if len(decB) == 0 || len(testB) == 0 || bad {
+				return nil
+			},
+			edges: func(c *guard.Checker) map[cfgx.Edge]string {
+				m := map[cfgx.Edge]string{}
+				for e := range c.PassEdges(thr) {
+					m[e] = "test"
+				}
+				return m
+			},
+			step: func(st uint8, ev string) (uint8, string) {
+				switch ev {
+				case "dec":
+					return 1, ""
+				case "test":
+					if st == 0 {
+						return st, "tested before the decrement"
+					}
+				}
+				return st, ""
+			}}
+		res := t.run(fn, 0)
+		if res.counts["dec"] == 0 || res.counts["test"] == 0 || res.bad != "" {
 			r.Violate("G-demote", key, r.P.FuncPos(fn), "the threshold test in RemoveVstorage can be reached before TotalStorage has been decremented (it would test the old capacity)")
 		} else {
 			r.Discharge("G-demote", key, r.P.FuncPos(fn), "the decrement of Pledge.TotalStorage lies on every path to the threshold test")
